@@ -100,7 +100,7 @@ CHECKS = {
                      "ended (its consumer got MediaStreamError), no event fires afterwards, no aiortc task of that node is pending and "
                      "no decoder thread is alive after a 3 s grace period."),
     "C05": dict(engine="hostile_sim", design="10/C05 + Appendix A", technique="deterministic simulation with an enumerated fault class x protocol state product: a forging actor injects byte-level built datagrams (raw, or authenticated through the peer's real DTLS/SRTP) into a full real receive path at generated points of a session; liveness of the receive loop and tasks, a line-count cost meter, and post-injection round trips are the oracle",
-                text="Fault enumeration: 81 datagram classes (raw bytes of every first-byte range, damaged ciphertext; SCTP packets with "
+                text="Fault enumeration: 82 datagram classes (raw bytes of every first-byte range, damaged ciphertext; SCTP packets with "
                      "correct CRC and verification tag: unknown/truncated chunks, parameter lengths 0/odd/overlong, SACK gap blocks "
                      "inverted/overlapping/16-bit extremes/hundreds, counts beyond the body, FORWARD-TSN stream lists, RE-CONFIG parameters "
                      "of every type and truncation, bundled chunks, bundled INIT, DCEP garbage and invalid UTF-8 on unused and live streams, "
